@@ -15,9 +15,12 @@ Keys2 == {<<"n","a","m","e">>, <<"o","p","t","_","1">>}
 Keys1 == {<<"n","a","m","e">>}
 Alpha == {"a", "7", " ", "#", "=", "[", "]", "\"", "\\", ".", "-"}
 Prefixes == {<<>>, <<"k", " ", "=", " ">>, <<"[", "s", "]", "=">>}
+NumAlpha == {"i", "n", "f", "a", "N", "e", "1", "+", "-", ".", "x", "p", "0"}
+NumPrefixes == {<<"k", " ", "=", " ">>}
 NoAlpha == {}
 NoPrefix == {<<>>}
 AllClasses == {"str_plain", "str_empty", "str_hash", "str_eq", "str_bracket", "str_blanks", "str_digits",
-               "str_float", "str_True", "bool_true", "bool_false", "int_pos", "int_zero", "int_neg", "int_max",
+               "str_float", "str_True", "str_inf", "str_Infinity", "str_NaN", "str_neginf", "str_exp", "str_hexfloat",
+               "str_plusint", "str_negint", "str_dotfrac", "str_underscore", "bool_true", "bool_false", "int_pos", "int_zero", "int_neg", "int_max",
                "flt_frac", "flt_negfrac", "flt_tiny", "flt_integral", "flt_negintegral", "flt_zero", "flt_1e19"}
 =============================================================================
